@@ -3,7 +3,9 @@ package coordinator
 import (
 	"context"
 	"crypto/tls"
+	"encoding/binary"
 	"fmt"
+	"io"
 	"net"
 	"strconv"
 	"sync"
@@ -426,7 +428,56 @@ func (e *MetaExecutor) CreateIterator(nodeID uint64, shardIDs []uint64, ctx cont
 		return nil, nil
 	}
 
-	return query.NewReaderIterator(ctx, conn, resp.Type, resp.Stats), nil
+	return query.NewReaderIterator(ctx, &streamEndReader{ReadCloser: conn}, resp.Type, resp.Stats), nil
+}
+
+// traceFramePrefix is how the frame that ends an iterator stream begins: the serving node
+// writes it last (IteratorEncoder.EncodeTrace: empty name and tags, zero time, not nil,
+// then the trace field, number 13).
+var traceFramePrefix = []byte{0x0a, 0x00, 0x12, 0x00, 0x18, 0x00, 0x20, 0x00, 0x6a}
+
+// streamEndReader follows the frames (4-byte length, payload) of an iterator stream as they
+// are read and reports io.ErrUnexpectedEOF when the stream ends anywhere but after its
+// trace frame. The stream has no other end marker: without this check the points received
+// before the serving node died or the connection dropped would pass for the whole result.
+type streamEndReader struct {
+	io.ReadCloser
+	hdr       [4]byte
+	hdrN      int    // bytes of the current frame's length read so far
+	left      uint32 // payload bytes of the current frame still to come
+	pos       int    // bytes of the current payload seen so far
+	trace     bool   // the current payload still matches traceFramePrefix
+	lastTrace bool   // the last complete frame was a trace frame
+}
+
+func (r *streamEndReader) Read(p []byte) (int, error) {
+	n, err := r.ReadCloser.Read(p)
+	for _, b := range p[:n] {
+		if r.left == 0 {
+			r.hdr[r.hdrN] = b
+			r.hdrN++
+			if r.hdrN == 4 {
+				r.hdrN, r.pos, r.trace = 0, 0, true
+				r.left = binary.BigEndian.Uint32(r.hdr[:])
+				if r.left == 0 {
+					r.lastTrace = false
+				}
+			}
+			continue
+		}
+		if r.pos < len(traceFramePrefix) && b != traceFramePrefix[r.pos] {
+			r.trace = false
+		}
+		r.pos++
+		r.left--
+		if r.left == 0 {
+			r.lastTrace = r.trace && r.pos >= len(traceFramePrefix)
+		}
+	}
+	if err == io.EOF && !(r.left == 0 && r.hdrN == 0 && r.lastTrace) {
+		err = io.ErrUnexpectedEOF
+	}
+	return n, err
 }
 
 func (e *MetaExecutor) IteratorCost(nodeID uint64, shardIDs []uint64, m *influxql.Measurement, opt query.IteratorOptions) (query.IteratorCost, error) {
